@@ -55,8 +55,7 @@ ASSUMPTIONS = [
     "line-by-line tokenisation = whole-text tokenisation with newline as white space and no newline inside quoted strings",
 ]
 
-FINDING_OF = {"inline-asm": "irtext:inline-asm", "float-text": "irtext:float-nonfinite",
-              "identifier": "irtext:identifier", "rol-keyword": "irtext:rol-keyword-operand"}
+FINDING_OF = {"inline-asm": "irtext:inline-asm", "identifier": "irtext:identifier", "rol-keyword": "irtext:rol-keyword-operand"}
 # the two directions of name capture that the CURRENT readers exhibit (the Lean model predicts both)
 CAPTURE_A = "irtext:name-capture:value-hides-global-used-in-same-function"
 CAPTURE_B = "irtext:name-capture:later-value-captures-forward-reference"
@@ -120,7 +119,7 @@ def collect(ctx):
     for label, g in K.generated(ctx, n, cover):
         cases.append({"label": label, "module": g.module, "gen": g, "expect": None})
     # generated modules carrying one excluded construct
-    for k, which in enumerate(["inline-asm", "float-text", "name-capture"] * (4 if ctx.thorough else 1)):
+    for k, which in enumerate(["inline-asm", "name-capture"] * (4 if ctx.thorough else 1)):
         g = K.irgen.gen_module(ctx.rng, K.irgen.GenConfig(**K.CONFIGS[k % len(K.CONFIGS)]), name=f"genx{k}")
         if K.add_finding_feature(ctx.rng, g, which):
             cases.append({"label": f"genx{k}-{which}", "module": g.module, "gen": None, "expect": which})
